@@ -76,6 +76,12 @@ func NodeCmds(ids []string, roles map[string]string) []Cmd {
 			Cmd{Name: "Demote(" + id + ")", Type: araft.CommandDemoteWriter, P: araft.DemoteWriterPayload{NodeID: id}},
 			Cmd{Name: "AssignCompactor(" + id + ")", Type: araft.CommandAssignCompactor, P: araft.AssignCompactorPayload{NodeID: id}},
 		)
+		// promotions carrying an old-primary hint (what the failover manager sends; the hint may be stale)
+		if roles[id] == "writer" {
+			for _, o := range ids {
+				out = append(out, Cmd{Name: "Promote(" + id + ",old=" + o + ")", Type: araft.CommandPromoteWriter, P: araft.PromoteWriterPayload{NodeID: id, OldPrimaryID: o}})
+			}
+		}
 	}
 	return out
 }
